@@ -475,7 +475,7 @@ fn emit_case(
 }
 
 pub fn gen(tier: Tier, r: &mut Rng, emit: &mut dyn FnMut(String)) {
-    let rounds = if tier == Tier::Quick { 700 } else { 12_000 };
+    let rounds = if tier == Tier::Quick { 300 } else { 4_000 };
     let sizes: [usize; 24] = [0, 1, 2, 3, 5, 17, 63, 64, 65, 127, 128, 129, 255, 256, 257, 300, 511, 512, 513, 600, 767, 768, 769, 1030];
     for round in 0..rounds {
         let n = if r.chance(1, 4) { r.usize_below(40) } else { *r.pick(&sizes) };
